@@ -21,7 +21,7 @@ ASSUMPTIONS = ['data types B (binary), empty and unknown type names are outside 
                'the reference languages are written from the property text: calendar via stdlib calendar.monthrange']
 REQUIRED_COUNTERS = ['contract:evals', 'contract:documents', 'evals:N', 'evals:R', 'evals:DT', 'evals:D8', 'evals:D6', 'evals:RD8', 'evals:TM', 'evals:AN', 'evals:ID',
                      'ref-invalid', 'ref-valid']
-MIN_CASES = {'quick': 500000, 'thorough': 2000000}
+MIN_CASES = {'quick': 500000, 'thorough': 4000000}
 
 SETTINGS = [('B', '00401'), ('E', '00401'), ('B', '00501'), ('E', '00501')]
 
@@ -31,8 +31,13 @@ def dom_numeric(ctx):
     for n in range(1, 7):
         for t in itertools.product('059-.', repeat=n):
             vals.append(''.join(t))
-    for n in range(1, 5):
+    for n in range(1, 5 if ctx.quick else 6):
         for t in itertools.product('0123456789', repeat=n):
+            vals.append(''.join(t))
+    if not ctx.quick:
+        for t in itertools.product('059-.', repeat=7):
+            vals.append(''.join(t))
+        for t in itertools.product('0-.1', repeat=8):
             vals.append(''.join(t))
     vals += ['-0', '+5', ' 5', '5 ', '5\n', '\n5', '1e5', '0x1', '٣', '5٣', '1,5', '--5', '5-', '.', '-.', '-.5', '5.', '-5.',
              '1.2.3', '５', '5\x00', '1' * 40, '-' + '9' * 40, '9' * 20 + '.' + '9' * 20]
@@ -71,7 +76,7 @@ def dom_dates(ctx):
     dates = ['20000101', '20000229', '19000229', '20010229', '21000229', '24000229', '18000101', '17991231', '20001301',
              '20000132', '20000431', '20000430', '99991231', '00000000', '20000100', '20000001']
     if not ctx.quick:
-        dates += ['%04d%02d%02d' % (y, m, d) for y in (1800, 1904, 2023, 2024) for m in (2, 6, 12) for d in (28, 29, 30, 31)]
+        dates += ['%04d%02d%02d' % (y, m, d) for y in (1800, 1900, 1904, 2000, 2023, 2024, 2100) for m in (1, 2, 4, 6, 11, 12) for d in (28, 29, 30, 31)]
     for dte in dates:
         for hm in range(0, 10000):
             yield ('DT', dte + '%04d' % hm, 'B', '00401')
